@@ -40,8 +40,8 @@ def generate(rng, tier):
     # some length are invisible with a handful of frames)
     big = rng.random() < (0.07 if tier == "quick" else 0.12)
     if big:
-        ncompat = rng.choice([40, 48, 70])
-        order = rng.choice(["ABACAD" * 14, "ABACAD" * 14, "AB" * 50, "ABACADAEAFAGAH" * 3])
+        ncompat = rng.choice([40, 48, 70, 140, 200])
+        order = rng.choice(["ABACAD" * 40, "ABACAD" * 40, "AB" * 120, "ABACADAEAFAGAH" * 3])
     pool = []
     for i in range(ncompat):
         pool.append({"kind": "ok", "tchans": rng.choice([2, 3, 4]), "t_start": 1000.0 * i + rng.choice([0.0, 5.0]),
@@ -54,7 +54,7 @@ def generate(rng, tier):
     npool = len(pool)
     init = [rng.randrange(ncompat) for _ in range(rng.choice([0, 0, 1, 2, 3, 4]))]
     if big and rng.random() < 0.6:
-        init = rng.sample(range(ncompat), rng.choice([32, 33, 36, 40]))
+        init = rng.sample(range(ncompat), rng.choice([32, 33, 36, 40] + ([128, 130, 139] if ncompat >= 140 else [])))
     if rng.random() < 0.1:
         init.append(rng.randrange(npool))
 
@@ -100,6 +100,12 @@ def generate(rng, tier):
         at = rng.randrange(min(len(ops), 4) + 1)
         ops.insert(at, {"op": "extend", "items": rng.sample(range(ncompat), rng.choice([32, 34, 40]))})
         ops.insert(at + 1, {"op": "by_label", "label": "A"})
+        # selection by index array, a mutation, the same selection again (anything kept between selections must notice)
+        ga = {"op": "getarray", "idx": [rng.choice([0, 1, 2, -1, 5, 31]) for _ in range(3)], "form": rng.choice(["list", "ndarray"]), "maskbits": 0}
+        mut = rng.choice([{"op": "setitem", "i": rng.choice([0, 1, 2, -1]), "item": rng.randrange(ncompat)},
+                          {"op": "insert", "i": rng.choice([0, 1, 3]), "item": rng.randrange(ncompat)},
+                          {"op": "append", "item": rng.randrange(ncompat)}, {"op": "delitem", "i": 0}])
+        ops.extend([dict(ga), mut, dict(ga)])
     for op in ops:
         # reading the aggregate properties is itself scheduled: reading fills any cache, not reading lets it go stale
         op["observe"] = rng.random() < 0.6
